@@ -108,4 +108,20 @@ def pairAlignedB (doc : Node) (pos : Nat) : Bool :=
        | _ => true)
   | none => true
 
+/-! ### a hypothesis about a request `replace(from, to, slice)`: the direct fit -/
+
+/-- **the node `from` is in accepts the closed slice's nodes as they stand behind `from`**:
+    `from.parent.content_match_at(from.index_after())`, then `match_type` over every node of the content.  Then
+    `Fitter.find_fittable` answers the innermost frontier entry at once and `place_nodes` takes every node: the loop of
+    `fit` runs once (typing into a textblock, over a selection inside it or across blocks; `insert` / `replace_with` of
+    nodes the parent takes at that place). -/
+def directFitB (S : Schema) (doc : Node) (f : Nat) (sl : Slice) : Bool :=
+  match doc.resolve f with
+  | some rf =>
+    sl.openStart == 0 && sl.openEnd == 0 &&
+    (match S.contentMatchAt (S.tyOf rf.parent) rf.parent.kids (rf.indexAfter rf.depth) with
+     | some q => ((S.dfa (S.tyOf rf.parent)).run q (S.types sl.content)).isSome
+     | none => false)
+  | none => false
+
 end PM
